@@ -580,7 +580,7 @@ func (f *File) Read(p []byte) (n int, err error) {
 	})
 
 	if !f.flags.Read {
-		return -1, os.ErrPermission
+		return 0, os.ErrPermission
 	}
 
 	if len(p) <= 0 {
@@ -588,7 +588,7 @@ func (f *File) Read(p []byte) (n int, err error) {
 	}
 
 	if f.info.IsDir() {
-		return -1, config.ErrIsDirectory
+		return 0, config.ErrIsDirectory
 	}
 
 	f.ioLock.Lock()
@@ -654,7 +654,7 @@ func (f *File) Read(p []byte) (n int, err error) {
 	}
 
 	if err != nil {
-		return -1, err
+		return 0, err
 	}
 
 	return copy(p, w.Bytes()), nil
@@ -668,7 +668,7 @@ func (f *File) ReadAt(p []byte, off int64) (n int, err error) {
 	})
 
 	if !f.flags.Read {
-		return -1, os.ErrPermission
+		return 0, os.ErrPermission
 	}
 
 	if len(p) <= 0 {
@@ -676,11 +676,11 @@ func (f *File) ReadAt(p []byte, off int64) (n int, err error) {
 	}
 
 	if f.info.IsDir() {
-		return -1, config.ErrIsDirectory
+		return 0, config.ErrIsDirectory
 	}
 
 	if _, err := f.Seek(off, io.SeekStart); err != nil {
-		return -1, err
+		return 0, err
 	}
 
 	return f.Read(p)
@@ -708,27 +708,27 @@ func (f *File) Write(p []byte) (n int, err error) {
 	})
 
 	if f.info.IsDir() {
-		return -1, config.ErrIsDirectory
+		return 0, config.ErrIsDirectory
 	}
 
 	if !f.flags.Write {
-		return -1, os.ErrPermission
+		return 0, os.ErrPermission
 	}
 
 	f.ioLock.Lock()
 	defer f.ioLock.Unlock()
 
 	if err := f.enterWriteMode(); err != nil {
-		return -1, err
+		return 0, err
 	}
 
 	if err := f.seekToEndIfAppending(); err != nil {
-		return -1, err
+		return 0, err
 	}
 
 	n, err = f.writeBuf.Write(p)
 	if err != nil {
-		return -1, err
+		return 0, err
 	}
 
 	return n, nil
@@ -742,22 +742,22 @@ func (f *File) WriteAt(p []byte, off int64) (n int, err error) {
 	})
 
 	if f.info.IsDir() {
-		return -1, config.ErrIsDirectory
+		return 0, config.ErrIsDirectory
 	}
 
 	if !f.flags.Write {
-		return -1, os.ErrPermission
+		return 0, os.ErrPermission
 	}
 
 	f.ioLock.Lock()
 	defer f.ioLock.Unlock()
 
 	if err := f.enterWriteMode(); err != nil {
-		return -1, err
+		return 0, err
 	}
 
 	if _, err := f.seekWithoutLocking(off, io.SeekStart); err != nil {
-		return -1, err
+		return 0, err
 	}
 
 	return f.writeBuf.Write(p)
@@ -770,22 +770,22 @@ func (f *File) WriteString(s string) (ret int, err error) {
 	})
 
 	if f.info.IsDir() {
-		return -1, config.ErrIsDirectory
+		return 0, config.ErrIsDirectory
 	}
 
 	if !f.flags.Write {
-		return -1, os.ErrPermission
+		return 0, os.ErrPermission
 	}
 
 	f.ioLock.Lock()
 	defer f.ioLock.Unlock()
 
 	if err := f.enterWriteMode(); err != nil {
-		return -1, err
+		return 0, err
 	}
 
 	if err := f.seekToEndIfAppending(); err != nil {
-		return -1, err
+		return 0, err
 	}
 
 	return f.writeBuf.Write([]byte(s))
